@@ -4,5 +4,6 @@ import NflowsModel.Properties.C12E
 import NflowsModel.Properties.C12R
 import NflowsModel.Properties.C12F
 import NflowsModel.Properties.C12S
+import NflowsModel.Properties.C12A
 
 #audit_namespace Properties.C12
